@@ -240,7 +240,10 @@ impl<'t, 'a, 'b> Gen<'t, 'a, 'b> {
         let n = self.t.below(12);
         let mut s = String::new();
         for _ in 0..n {
-            let c = match self.t.below(14) {
+            let c = match self.t.below(18) {
+                14 | 15 => (b'0' + self.t.below(10) as u8) as char,
+                16 => *self.t.pick(&['[', '=', '-', '{', '}', '(', '#', '$', '`', '?']),
+                17 => char::from_u32(0x7f + self.t.below(3) as u32).unwrap_or('x'),
                 0 => '\n',
                 1 => '\r',
                 2 => '\t',
@@ -996,6 +999,12 @@ impl<'t, 'a, 'b> Gen<'t, 'a, 'b> {
                 body.stmts.push(Stmt::Def { var: v, mutable: false, value: int(k as i64) });
             }
         }
+        if let Some((fv, fuel)) = ctx.rec {
+            if !ctx.pure && ret != Ty::Void && ctx.rec_calls < 2 && self.cfg.reentrant_bias >= 2 && self.t.chance(1, 2) {
+                let ss = self.held_across_call(fv, fuel, &mut ctx);
+                body.stmts.extend(ss);
+            }
+        }
         if ret != Ty::Void {
             let dd = if self.fn_depth >= 3 { 1 } else { self.cfg.expr_depth.min(3) };
             let holder = ctx.rec.is_some() && ctx.rec_calls < 2 && self.t.chance(self.cfg.reentrant_bias.min(3), 4);
@@ -1098,6 +1107,128 @@ impl<'t, 'a, 'b> Gen<'t, 'a, 'b> {
         let v = self.fresh(prefix, ty.clone(), VarKind::Local, mutable);
         self.scope.push(SVar { id: v, ty, mutable, assignable, rec: false, global: false });
         v
+    }
+
+    /// Statements for the body of the recursive function `fv` (fuel parameter `fuel`): a value that differs
+    /// from activation to activation (it depends on the fuel) is computed by one of the constructs whose
+    /// result lives in a compiler temporary, is then held at an expression position (tuple element, operand,
+    /// call argument, list element) while a re-entrant call of the same function runs, and is printed afterwards.
+    fn held_across_call(&mut self, fv: VarId, fuel: VarId, ctx: &mut FnCtx) -> Vec<Stmt> {
+        let fsv = match self.scope.iter().find(|v| v.id == fv).cloned() {
+            Some(v) => v,
+            None => return Vec::new(),
+        };
+        let ret = match &fsv.ty {
+            Ty::Fn(_, r, _) => (**r).clone(),
+            _ => return Vec::new(),
+        };
+        self.cost(ctx, 8);
+        let k = self.t.range(0, self.cfg.fuel.max(1));
+        let fuel_cmp = |g: &mut Self| -> Expr {
+            let op = *g.t.pick(&[BinOp::Gt, BinOp::Lt, BinOp::Eq, BinOp::Ne, BinOp::Ge, BinOp::Le]);
+            bin(op, Ty::Bool, var(&g.p, fuel), int(k))
+        };
+        // the held value
+        let held: Expr = match self.t.below(7) {
+            0 => {
+                let c = fuel_cmp(self);
+                let x = self.expr_c(&Ty::Bool, 1, ctx);
+                bin(BinOp::And, Ty::Bool, c, x)
+            }
+            1 => {
+                let c = fuel_cmp(self);
+                let x = self.expr_c(&Ty::Bool, 1, ctx);
+                bin(BinOp::Or, Ty::Bool, c, x)
+            }
+            2 => {
+                let c = fuel_cmp(self);
+                let x = fuel_cmp(self);
+                let op = if self.t.bool() { BinOp::And } else { BinOp::Or };
+                bin(op, Ty::Bool, x, c)
+            }
+            3 => {
+                // if-expression whose branches are distinct
+                let c = fuel_cmp(self);
+                let ty = self.t.pick(&[Ty::Int, Ty::Str, Ty::Bool]).clone();
+                let (a, b) = match &ty {
+                    Ty::Int => (bin(BinOp::Add, Ty::Int, var(&self.p, fuel), int(100)), int(-1)),
+                    Ty::Str => (string("then"), string("else")),
+                    _ => (boolean(true), boolean(false)),
+                };
+                let tb = Block { stmts: vec![], value: Some(Box::new(a)) };
+                let eb = Block { stmts: vec![], value: Some(Box::new(b)) };
+                e(ty, EKind::If(vec![(c, tb)], Some(eb)))
+            }
+            4 => {
+                // case on a Maybe built from the fuel
+                let c = fuel_cmp(self);
+                let mt = Ty::Maybe(Box::new(Ty::Int));
+                let just = e(mt.clone(), EKind::MaybeJust(Box::new(var(&self.p, fuel))));
+                let none = e(mt.clone(), EKind::MaybeNone);
+                let scrut = e(
+                    mt.clone(),
+                    EKind::If(
+                        vec![(c, Block { stmts: vec![], value: Some(Box::new(just)) })],
+                        Some(Block { stmts: vec![], value: Some(Box::new(none)) }),
+                    ),
+                );
+                let b = self.fresh("c", Ty::Int, VarKind::CaseBind, false);
+                let arm = Arm {
+                    variant: "Just".into(),
+                    bind: Some(b),
+                    body: Block { stmts: vec![], value: Some(Box::new(bin(BinOp::Mul, Ty::Int, var(&self.p, b), int(10)))) },
+                };
+                let d = Block { stmts: vec![], value: Some(Box::new(int(-7))) };
+                e(Ty::Int, EKind::Case { scrut: Box::new(scrut), arms: vec![arm], default: Some(d) })
+            }
+            5 => {
+                let op = *self.t.pick(&[BinOp::Add, BinOp::Sub, BinOp::Mul]);
+                let x = self.expr_c(&Ty::Int, 1, ctx);
+                bin(op, Ty::Int, var(&self.p, fuel), x)
+            }
+            _ => {
+                let c = fuel_cmp(self);
+                e(Ty::Bool, EKind::Not(Box::new(c)))
+            }
+        };
+        let hty = held.ty.clone();
+        let call = self.call_to(&fsv, 1, ctx);
+        let mut out = Vec::new();
+        // the position at which the value is held
+        let same = hty == ret;
+        let pos = self.t.below(if same { 4 } else { 2 });
+        match pos {
+            0 | 1 => {
+                // tuple element (before the call: held across it; after the call: control)
+                let (tt, els, idx) = if pos == 0 {
+                    (Ty::Tuple(vec![hty.clone(), ret.clone()]), vec![held, call], 0)
+                } else {
+                    let held2 = held.clone();
+                    (Ty::Tuple(vec![hty.clone(), ret.clone(), hty.clone()]), vec![held, call, held2], 2)
+                };
+                let h = self.local("h", tt.clone(), false, false);
+                out.push(Stmt::Def { var: h, mutable: false, value: e(tt, EKind::Tuple(els)) });
+                out.push(print_stmt(e(hty.clone(), EKind::TupleIdx(Box::new(var(&self.p, h)), 0))));
+                if idx == 2 {
+                    out.push(print_stmt(e(hty.clone(), EKind::TupleIdx(Box::new(var(&self.p, h)), 2))));
+                }
+            }
+            2 => {
+                // left operand of a comparison
+                let op = if self.t.bool() { BinOp::Eq } else { BinOp::Ne };
+                let h = self.local("h", Ty::Bool, false, false);
+                out.push(Stmt::Def { var: h, mutable: false, value: bin(op, Ty::Bool, held, call) });
+                out.push(print_stmt(var(&self.p, h)));
+            }
+            _ => {
+                // list element
+                let lt = Ty::List(Box::new(hty.clone()));
+                let h = self.local("h", lt.clone(), false, false);
+                out.push(Stmt::Def { var: h, mutable: false, value: e(lt, EKind::List(vec![held, call])) });
+                out.push(print_stmt(var(&self.p, h)));
+            }
+        }
+        out
     }
 
     /// Hand-shaped closure scenarios with generated parts (C10): closures created per loop iteration and
@@ -1460,7 +1591,7 @@ impl<'t, 'a, 'b> Gen<'t, 'a, 'b> {
             }
             11 => {
                 // local function (closure), possibly recursive
-                let rec = self.cfg.recursion && self.t.chance(1, 4);
+                let rec = self.cfg.recursion && self.t.chance(if self.cfg.reentrant_bias >= 2 { 2 } else { 1 }, 4);
                 let np = self.t.below(3);
                 let mut pts = Vec::new();
                 if rec {
@@ -1574,6 +1705,20 @@ impl<'t, 'a, 'b> Gen<'t, 'a, 'b> {
     // ---------------------------------------------------------------- top level
     fn gen_blob(&mut self) {
         let idx = self.p.blobs.len();
+        // structurally related blobs: a copy of an earlier blob with one more or one fewer data field
+        if idx > 0 && self.t.chance(1, 2) {
+            let src = self.p.blobs[self.t.below(idx)].clone();
+            let mut fields: Vec<FieldDecl> = src.fields.clone();
+            let data: Vec<usize> = (0..fields.len()).filter(|i| !fields[*i].ty.is_fn()).collect();
+            if self.t.bool() && data.len() > 1 {
+                fields.remove(*data.last().unwrap());
+            } else {
+                let ty = self.scalar_ty();
+                fields.insert(data.len(), FieldDecl { name: format!("fx{}", idx), ty });
+            }
+            self.p.blobs.push(BlobDecl { name: format!("B{}", idx), fields });
+            return;
+        }
         let nf = self.t.below(4) + 1;
         let mut fields = Vec::new();
         for i in 0..nf {
@@ -1627,7 +1772,7 @@ impl<'t, 'a, 'b> Gen<'t, 'a, 'b> {
         if !self.cfg.fn_exprs_program_wide {
             self.fn_exprs = 0;
         }
-        let rec = self.cfg.recursion && self.t.chance(1, 3);
+        let rec = self.cfg.recursion && self.t.chance(if self.cfg.reentrant_bias >= 2 { 2 } else { 1 }, 3);
         let np = self.t.below(4);
         let mut pts = Vec::new();
         if rec {
